@@ -148,6 +148,24 @@ Definition balanced (paths : list (string * nat * nat * bool)) : bool :=
   forallb (fun r => existsb (fun p => match p with (n, _, _, _) => String.eqb n r end) paths) required_paths &&
   Nat.eqb (List.length paths) (List.length required_paths).
 
+(** shape of the completion bookkeeping in asyncoro.py, as recognised by the translator (anything else is emitted as
+    "unrecognised: ..." and fails):
+      increment_first        typed_asyncoro starts with `_pc_level += 1`, before the coroutine object is even created,
+                             i.e. for all three declaration forms (returnType(type), returnType(None), annotation);
+      declaration_neutral    the `if rettype:` branch (annotation form) does not touch `_pc_level`;
+      task_tail_straight     after the no_async block: [wrap in program-counter wrapper]; Task(...); f_back;
+                             add_done_callback(_reconcile); return -- no branch on `decl`, no `_pc_level` assignment:
+                             the decrement of an asynchronous coroutine happens only at COMPLETION of its task;
+      reconcile_first        `_reconcile` decrements in its first statement, before looking at decl / the task result
+                             (so also when the task ended with an exception and when nothing is returned);
+      wrapper_finally        _ProgramCounterWrapper.__await__ restores the caller's program counter in a `finally`
+                             around coro.send (also when the coroutine raises), and saves the private one in `else`. *)
+Definition completion_shape_wf (l : list string) : bool :=
+  match l with
+  | ["increment_first"; "declaration_neutral"; "task_tail_straight"; "reconcile_first"; "wrapper_finally"] => true
+  | _ => false
+  end.
+
 (** order of the statements of Runtime.shutdown *)
 Definition shutdown_order_wf (l : list string) : bool :=
   match l with
